@@ -33,6 +33,8 @@ RULE = ("histories of C17's alphabet with a save/restore step (the real Main.sav
 LEVEL_TEXT = ("Exploration: restart inserted at every position of every history to depth 3 (quick) / 5 (thorough) "
               "plus random positions in random histories; after the restart the C16/C17 oracles run against a model "
               "in which every unfinished job is queued again in (priority, serial) order with its absolute "
-              "timeout and finished jobs keep their outcome.")
+              "timeout and finished jobs keep their outcome. Life-cycle shards run the real Main.run loop on a "
+              "loopback socket, end it in each of three ways (ctrl-c, server stopped, loop killed) and start it "
+              "again from its data directory over four cycles, judged from the client's own record.")
 LEVEL_NOTE = "Same trusted base as C16; the saved state is what Main.savedb writes at that instant."
 TECHNIQUE = "recorded history + model with restart step (real Main.savedb / Main.loaddb, with and without downtime), differential against the restart-free control history"
